@@ -36,7 +36,8 @@ RULE = ("seeded rules over freq 0..6 x interval 1..400 (and large sub-daily inte
         "BYSETPOS/BYMONTH/BYMONTHDAY/BYYEARDAY/BYWEEKNO/BYDAY(plain, nth, mixed)/BYEASTER/BYHOUR/BYMINUTE/BYSECOND with positive and "
         "negative members x starts (date / naive / tzutc / tzoffset / tzfile-aware; years 1..9999 biased to leap, century and boundary "
         "years, month ends) x COUNT / UNTIL (incl. exactly on an occurrence, +-1 s, microseconds, other fixed-offset zone, date) / "
-        "unbounded prefix of 12..40 items; distinct = distinct canonical rule + prefix length; non-trivial = the implementation "
+        "unbounded prefix of 12..40 items; plus an exhaustive sweep of single-part rules (every BYWEEKNO number x week start, every nth "
+        "weekday, every BYEASTER offset -80..250, BYSETPOS +-1..+-23) over start years 1996..2011 in the thorough tier (thin slice in quick); distinct = distinct canonical rule + prefix length; non-trivial = the implementation "
         "yielded at least one instant (or ended normally) and the case was compared against the Lean spec; cap hits are skipped cases")
 
 from datetime import date, datetime as DTm, timedelta
@@ -460,11 +461,53 @@ def _safe(pred, v):
         return False
 
 
+def sweep_cases(full):
+    """exhaustive finite sub-domains for the BY parts whose exactness is not proved: every BYWEEKNO number x
+    week start, every nth weekday, every BYEASTER offset of the supported class, BYSETPOS positions;
+    over start years covering all 14 year types (thorough) or a thin slice (quick)"""
+    out = []
+    years = list(range(1996, 2012)) if full else [2004, 2009]
+    def base(freq, y, **kw):
+        c = {"freq": freq, "interval": 1, "wkst": None, "dtstart": [y, 1, 1, 0, 0, 0, 0], "kind": "naive", "n": 4}
+        c.update(kw)
+        return c
+    for y in years:
+        for wk in (range(7) if full else (0, 6)):
+            for n in list(range(-53, 0)) + list(range(1, 54)):
+                if not full and abs(n) not in (1, 2, 26, 51, 52, 53):
+                    continue
+                out.append(base(0, y, wkst=wk, byweekno=[n]))
+    for y in (years[:8] if full else years[:1]):
+        for wd in range(7):
+            for n in (-5, -4, -3, -2, -1, 1, 2, 3, 4, 5):
+                out.append(base(1, y, byweekday=[[wd, n]]))
+                out.append(base(0, y, bymonth=[2, 12], byweekday=[[wd, n]]))
+            for n in (list(range(-53, 0)) + list(range(1, 54)) if full else (-53, -52, -1, 1, 52, 53)):
+                out.append(base(0, y, byweekday=[[wd, n]]))
+    for y in ((1996, 2000, 2008, 2038) if full else (2008,)):
+        for o in (range(-80, 251) if full else range(-80, 251, 17)):
+            out.append(base(0, y, byeaster=[o]))
+            if full and o % 5 == 0:
+                out.append(base(3, y, byeaster=[o], n=3))
+    for y in years[:4]:
+        for p in list(range(-23, 0)) + list(range(1, 24)):
+            if full or abs(p) in (1, 2, 22, 23):
+                out.append(base(1, y, byweekday=[[0, 0], [1, 0], [2, 0], [3, 0], [4, 0]], bysetpos=[p]))
+    return out
+
+
 def oracle(ctx):
     cases = [dict(c) for c in WITNESS_CASES]
     cases += [c for c in getattr(ctx, "corr_bad", [])]          # inputs on which model and implementation differed
     evaluate(ctx, cases)
-    rng_cases = gen_cases(ctx, "oracle", ctx.budget(550, 9000))
+    full = ctx.budget(0, 1) == 1
+    sw = sweep_cases(full)
+    ctx.count("oracle_sweep_cases", len(sw))
+    for i in range(0, len(sw), 1000):
+        evaluate(ctx, sw[i:i + 1000])
+        if len(unknown_violations(ctx)) >= 3:
+            break
+    rng_cases = gen_cases(ctx, "oracle", ctx.budget(500, 6500))
     for i in range(0, len(rng_cases), 500):
         evaluate(ctx, rng_cases[i:i + 500])
         if len(unknown_violations(ctx)) >= 3:
